@@ -4,3 +4,5 @@ use crate::replay::{Replay, Violation};
 use crate::worker::Ctx;
 pub fn run(_ctx: &mut Ctx, _c: &Corpus) -> Vec<Replay> { vec![] }
 pub fn classify(_r: &Replay) -> Vec<Violation> { vec![] }
+pub fn run_proc(_ctx: &mut Ctx, _c: &Corpus, _verif: &str) -> Vec<Replay> { vec![] }
+pub fn classify_proc(_r: &Replay, _verif: &str) -> Vec<Violation> { vec![] }
